@@ -140,6 +140,7 @@ type ProgSpec struct {
 	ModeLate     bool              `json:"mode_late,omitempty"`      // SetMode is called after all commands have been declared
 	MapKeysLower bool              `json:"map_keys_lower,omitempty"` // SetMapKeysToLower on the program (C06 only)
 	UnknownMode  int               `json:"unknown"`                  // 0 Fail, 1 Warn, 2 Pass
+	UnknownLate  int               `json:"unknown_late,omitempty"`   // 1+x: SetUnknownMode(x) is called on the program again AFTER all commands were declared; commands keep the mode they inherited when they were created (documented: set it before NewCommand to have it inherited)
 	RequireOrder bool              `json:"require_order"`            // on the root, before commands
 	Help         string            `json:"help,omitempty"`
 	HelpAliases  []string          `json:"help_aliases,omitempty"`
@@ -296,7 +297,11 @@ func (p *ProgSpec) Levels() *Level {
 		}
 		return l
 	}
-	return rec(p.Root.Name, &p.Root, nil, p.UnknownMode, p.RequireOrder)
+	root := rec(p.Root.Name, &p.Root, nil, p.UnknownMode, p.RequireOrder)
+	if p.UnknownLate > 0 {
+		root.UnknownMode = p.UnknownLate - 1
+	}
+	return root
 }
 
 // Find returns the level with the given path.
